@@ -340,6 +340,7 @@ func writeEvidence(path string, p Prop, tier string, seed int, results []*eng.Fu
 		"bounded":                  bounded,
 		"solver_seconds":           stime,
 		"solver_obligations":       scount,
+		"cross_check":              crossSummary(results, tier),
 		"not_decided":              p.NotDecided,
 		"meta_argument":            p.Meta,
 		"exhaustive":               false,
@@ -368,4 +369,29 @@ func sortedKeys(m map[string]bool) []string {
 	}
 	sort.Strings(ks)
 	return ks
+}
+
+// crossSummary reports the thorough tier's second-solver pass.
+func crossSummary(results []*eng.FuncResult, tier string) interface{} {
+	if tier != "thorough" {
+		return nil
+	}
+	agree, undecided, disagree := 0, 0, 0
+	for _, fr := range results {
+		for _, o := range fr.Obls {
+			if o.Canary {
+				continue
+			}
+			switch o.Cross {
+			case "unsat":
+				agree++
+			case "sat":
+				disagree++
+			default:
+				undecided++
+			}
+		}
+	}
+	return map[string]interface{}{"second_solver": "z3 4.8.12 on the same incremental scripts, 2 s per obligation", "confirmed_unsat": agree,
+		"undecided_by_second_solver": undecided, "refuted_by_second_solver": disagree}
 }
